@@ -1664,8 +1664,9 @@ class Server:
         connection.response(code, info)
         return True
 
-    @ConnectionConditions(ConnectionConditions.login_required)
     async def abor(self, connection, rest):
+        # no login is required: transfers of this session (accepted before
+        # another USER was sent, may be) are the only thing touched
         workers = [w for w in connection.extra_workers if not w.done()]
         if workers:
             for worker in workers:
